@@ -504,6 +504,26 @@ def C06.bad (c : Ctx) (j : Journal) : List String :=
         (if adds != 0 then ["taint-above-scale-up-threshold"] else [])
       else []
 
+/-- The decision itself (the delta the scan settles on), in every mode including dry mode, against the
+    exact utilisation over the untainted uncordoned nodes: −fast / −slow / 0 / positive by band. Judged when
+    the group is unlocked, within its node-count bounds, at or above its minimum and no trigger is configured. -/
+def decisionBad (c : Ctx) (obsDelta : Int) : List String :=
+  let unt := nodesOf c.dry c.st .untainted c.view.nodes
+  let n : Int := c.view.nodes.length
+  if lockHeld c.st.lock c.cfg.coolNs c.nowReal || n < c.st.minEff || n > c.st.maxEff ||
+     (unt.length : Int) < c.st.minEff || c.cfg.scaleOnStarve || c.cfg.maxAgeNs > 0 then []
+  else
+    match exactUtil c with
+    | none => []
+    | some u =>
+      let want (d : Int) (band : String) : List String :=
+        if obsDelta == d then [] else ["decision-" ++ toString obsDelta ++ "-in-" ++ band ++ "-band-wants-" ++ toString d]
+      if clearlyBelow u c.cfg.lower then want (-c.cfg.fast) "fast-taint"
+      else if clearlyAbove u c.cfg.lower && clearlyBelow u c.cfg.upper then want (-c.cfg.slow) "slow-taint"
+      else if clearlyAbove u c.cfg.upper && clearlyBelow u c.cfg.scaleUp then want 0 "idle"
+      else if clearlyAbove u c.cfg.scaleUp then (if obsDelta ≥ 1 then [] else ["decision-" ++ toString obsDelta ++ "-above-scale-up-threshold"])
+      else []
+
 /-- The max_node_age exception as documented ("when at the minimum node group size, Escalator will
     trigger a scale up by a minimum of 1 if there are any nodes exceeding this max node age"; the code adds:
     and nothing is tainted yet): under that condition the scan must not taint and must decide ≥ 1.
